@@ -16,16 +16,16 @@ CFG = {
                   "after admission) with conditional theorems delimiting them. The model is tied to the compiled code by an exact "
                   "differential run (minimum, sizes, admission decisions, coins of change outputs) and the Coq-extracted judge "
                   "evaluates the property's inequalities on the implementation's own serialised sizes.",
-    "level_note": "Trusted: Coq kernel; the hand-written model (tied by correspondence on the generated cases); extraction "
+    "level_note": "Phase 3: the transaction size build() compares with max_tx_size is a proved size algebra (= length of the C01 Transaction encoding); the change paths are also proved on C05's full builder model instantiated with the concrete MinAda/TxSize oracle, and built transactions are compared with that model run stage by stage (no oracle values read off the implementation). Trusted: Coq kernel; the hand-written model (tied by correspondence on the generated cases); extraction "
                   "(ExtrOcamlBasic) and the OCaml/Rust glue. No axioms. Fee arithmetic, asset bookkeeping of the change and the "
                   "packing of bundles are opaque oracle arguments (all theorems quantify over them); the size of the fake full "
                   "transaction that build() compares with max_tx_size is the implementation's own figure.",
     "level": "proof",
     "theorems": ["C07_min_ada_sound", "C07_min_ada_upper", "C07_min_ada_any_rounds", "C07_min_ada_errors", "C07_min_ada_least",
                  "C07_min_ada_fallback_overestimates", "C07_out_size_decomposition", "C07_out_size_is_schema_encoding", "C07_out_size_is_standalone_schema_encoding", "C07_min_ada_for_output_sound",
-                 "C07_admission", "C07_value_size", "C07_tx_size", "C07_collateral_return",
+                 "C07_admission", "C07_value_size", "C07_tx_size", "C07_tx_size_encoding", "C07_collateral_return",
                  "C07_collateral_return_value_size_refuted", "C07_output_builder_helper", "C07_output_builder_helper_refuted",
-                 "C07_change_outputs_meet_min", "C07_topup_refuted", "C07_topup_conditional"],
+                 "C07_change_outputs_meet_min", "C07_change_on_builder_model", "C07_concrete_oracle_instance", "C07_pack_bundles_fit", "C07_pack_single_asset_premise_needed", "C07_topup_refuted", "C07_topup_conditional"],
     "allowed_axioms": [],
     "compare": "exact",
     "nontrivial": _nontrivial,
